@@ -28,6 +28,10 @@ def handlers : List (String × Handler) := [
       match classMutables.filter (fun m => (reviewedClassMutables.lookup (m.1, m.2.1, m.2.2.1)).isNone) with
       | [] => "none"
       | bad => "ok " ++ " ".intercalate (bad.map (fun m => s!"({m.1} {m.2.1} {m.2.2.1})"))
+    | [.atom "writes"] =>
+      match memoValueWrites.filter (fun w => (reviewedMemoWrites.lookup (w.1, w.2.1, w.2.2.1)).isNone) with
+      | [] => "none"
+      | bad => "ok " ++ " ".intercalate (bad.map (fun w => s!"({w.1} {w.2.1} {w.2.2.1})"))
     | _ => "err args"),
   /- det.reviewed-unused → none | ok … : reviewed set-site entries that no longer match any site (stale review) -/
   ("det.stale", fun
